@@ -261,11 +261,13 @@ def language_foundation(ctx):
     closure_rules.analyze(ctx, {"C02.d", "C02.e"})
     sharing.analyze(ctx, {"C02.f"})
     from . import classes, casts
-    classes.analyze(ctx, {"C08.e"})
+    classes.analyze(ctx, {"C08.a", "C08.b", "C08.c", "C08.d", "C08.e"})   # a class transition is taken exactly by the class's characters
     from . import pC06
     pC06.compiled_mode_rules(ctx, "C02.h")   # every configured pattern reaches the compiler, unmodified
     casts.analyze(ctx, {"C17.a"})   # ids of states, groups and classes are injective (no narrowing cast on a count or index)
     minimizer_rules.analyze(ctx, {"C03.a", "C03.b", "C03.c", "C03.d", "C03.e", "C03.f", "C03.g", "C03.h"})
+    from . import pC15
+    pC15.parse_pipeline(ctx, "C02.k")   # the text parsed is the configured text, default parser configuration, every error returned
     from . import adaptors
     adaptors.analyze(ctx, ("C02.j", "C03.i", "C08.f"))     # no loop of the pipeline drops, truncates or reorders elements
 
